@@ -53,3 +53,11 @@ Example C07_example :
   transform_gather fops (map fl_of_Z [10; 20; 0]) (unify_codes [1%nat; 0%nat] [0; -1; 1; 0])
   = map fl_of_Z [20; 0; 10; 20].
 Proof. vm_compute. reflexivity. Qed.
+
+(* Tie B (pins): the functions this property's models transcribe read, statement by statement, as they did when the models
+   were written against them; Gen/SourcesGen.v is regenerated from /repo on every run (translator/pins.py). *)
+From GL Require Import Gen.SourcesGen Model.Sources Proofs.PinC07.
+Theorem C07_modelled_functions_are_the_source's :
+  gen_src_apply_gb_reduction = src_apply_gb_reduction.
+Proof. exact pin_apply_gb_reduction. Qed.
+Print Assumptions C07_modelled_functions_are_the_source's.
